@@ -61,7 +61,7 @@
 // :none-requirement-changed, :hang, :panic:<site>; pom:shared-property-collateral-change;
 // Maven Update additionally maven-update:downgrade-when-current-missing, maven-update:nil-newreq,
 // maven-update:nil-current; npm-relax:prerelease-step-relaxed-to-caret; maven-update:equal-version-respelled;
-// maven:artifact-declared-under-two-origins.
+// maven:artifact-declared-under-two-origins; <strategy>:independent-patches-combined-downgrade.
 package main
 
 import (
@@ -531,7 +531,30 @@ func runFix(st string, c *u.Case, dir string, out *tupleOut) {
 	}
 	out.patches += len(res.Patches)
 	out.logf("FixVulns applied %d patches: %v", len(res.Patches), applied)
+	nBefore := len(out.findings)
 	checkUpdates(st, c, dir, base, applied, written, "applied", out)
+	// Root cause split for downgrades of the combined application: choosePatches only refuses to combine patches that
+	// change the same package or share a fixed vulnerability. If the applied patches fix pairwise DISJOINT sets and one of
+	// them moves a package another one pins, that is a limit of that rule (own key); with overlapping sets the rule itself
+	// was not honoured (plain :downgrade).
+	if len(res.Patches) > 1 {
+		seen, overlap := map[string]bool{}, false
+		for _, pt := range res.Patches {
+			for _, v := range pt.Fixed {
+				if seen[v.ID] {
+					overlap = true
+				}
+				seen[v.ID] = true
+			}
+		}
+		if !overlap {
+			for i := nBefore; i < len(out.findings); i++ {
+				if out.findings[i].Key == st+":downgrade" {
+					out.findings[i].Key = st + ":independent-patches-combined-downgrade"
+				}
+			}
+		}
+	}
 	if written != nil {
 		noneRequirementsKept(st, c, dir, base, *written, out)
 		unlistedMoves(st, c, dir, base, *written, applied, out)
@@ -774,6 +797,9 @@ func main() {
 			runAll(stOverride, func(emit func(*u.Case)) { b.GenPreShape(u.Maven, emit) })
 			runAll(stRelax, func(emit func(*u.Case)) { b.GenPreShape(u.NPM, emit) })
 			runAll(stRelax, func(emit func(*u.Case)) { b.GenAliasShape(emit) })
+			// two candidate patches that overlap in the vulnerabilities they fix (bump d1, which moves t1 / change t1 alone)
+			runAll(stOverride, func(emit func(*u.Case)) { b.GenOverlapShape(u.Maven, emit) })
+			runAll(stRelax, func(emit func(*u.Case)) { b.GenOverlapShape(u.NPM, emit) })
 			// Maven projects with a local parent pom sharing a property between two packages
 			runAll(stOverride, func(emit func(*u.Case)) { b.GenParentShape(emit) })
 			runAll(stUpdate, func(emit func(*u.Case)) { b.GenParentShape(emit) })
@@ -799,7 +825,7 @@ func main() {
 	r.Assume("the in-memory deps.dev LocalClient and the npm/Maven resolvers of deps.dev/util/resolve are the resolution semantics (the same ones the repository's own tests use)")
 	r.Assume("vulnerability matching uses the repository's IsAffected (decided separately by C18)")
 	rule := "For every tuple (universe, manifest, vulnerability set, upgrade config) of the bounded product below, for npm/relax and Maven/override (all candidate patches of ComputePatches and the patches FixVulns applies) and Maven/Update: every PackageUpdate u of a patch P has level(u.Name) != none; with v0 = version u.Name resolves to in manifest+(P-u) and v1 = in manifest+P (real writer, reader and resolver), v1 > v0 in the reference order and the most significant differing component of v0->v1 is allowed by the level (major: any, minor: minor/patch, patch: patch); direct requirements of `none` packages are textually unchanged in the written manifest and every direct requirement that is not a reported update still resolves, from the files on disk, to the same version or moved upward within its level; no tuple panics or runs longer than 120 s. " +
-		"Bound (" + r.Tier + "): " + b.Describe() + "; shapes " + strings.Join(u.FixShapes, ", ") + " (FixVulns; sharedprop Maven only) plus alias-solo, alias-plain, alias-chain (GenAliasShape, npm: a direct dependency declared as \"<alias>\": \"npm:<real>@<req>\", alone / next to a plain requirement of the same package / constraining a vulnerable transitive package; levels keyed by the real name, alias-keyed entries as controls) parent-req, parent-rev, parent-prop (GenParentShape, Maven: local parent pom parent.xml defining a property shared by the vulnerable d1 and another package d2, requirements split between parent and child) and name-solo, name-chain, name-update (GenNameShape: registry names from " + fmt.Sprint(u.NameAlphabet) + " instead of d1/t1, upgrade config built by Config.Set and by NewConfigFromStrings, keyed by the exact name) and prerelease (GenPreShape: solo over the ladder " + strings.Join(u.LadderPre, " ") + " with interleaved pre-releases) and equal-update, equal-override (Maven registry/manifest versions from the equal-ordered spellings " + strings.Join(u.EqualSpellings, " ") + "), origins-update and origin-direct, origin-transitive (one artifact declared in <dependencies> and in <dependencyManagement>, versions v,w over its published versions) and update-solo, update-pair, update-dup (Update; update-dup = one package required twice, jar a1 and tests/test-jar a2, a1,a2 over the ladder) as defined in verif/universe/gen.go, each the full product of its lists, enumerated simplest first."
+		"Bound (" + r.Tier + "): " + b.Describe() + "; shapes " + strings.Join(u.FixShapes, ", ") + " (FixVulns; sharedprop Maven only) plus alias-solo, alias-plain, alias-chain (GenAliasShape, npm: a direct dependency declared as \"<alias>\": \"npm:<real>@<req>\", alone / next to a plain requirement of the same package / constraining a vulnerable transitive package; levels keyed by the real name, alias-keyed entries as controls) overlap (GenOverlapShape: bumping d1 moves its transitive t1 from x to z while t1 can also be changed alone; vulnerabilities on d1 and on t1, one of them fixed only by the middle version y, so that independently computed patches overlap in what they fix) parent-req, parent-rev, parent-prop (GenParentShape, Maven: local parent pom parent.xml defining a property shared by the vulnerable d1 and another package d2, requirements split between parent and child) and name-solo, name-chain, name-update (GenNameShape: registry names from " + fmt.Sprint(u.NameAlphabet) + " instead of d1/t1, upgrade config built by Config.Set and by NewConfigFromStrings, keyed by the exact name) and prerelease (GenPreShape: solo over the ladder " + strings.Join(u.LadderPre, " ") + " with interleaved pre-releases) and equal-update, equal-override (Maven registry/manifest versions from the equal-ordered spellings " + strings.Join(u.EqualSpellings, " ") + "), origins-update and origin-direct, origin-transitive (one artifact declared in <dependencies> and in <dependencyManagement>, versions v,w over its published versions) and update-solo, update-pair, update-dup (Update; update-dup = one package required twice, jar a1 and tests/test-jar a2, a1,a2 over the ladder) as defined in verif/universe/gen.go, each the full product of its lists, enumerated simplest first."
 	os.RemoveAll(scratchRoot)
 	r.Finish(rule, exhaustive)
 }
